@@ -32,6 +32,7 @@ type SpecEnv struct {
 	pkgPath string
 	noHeap  bool
 	depth   int
+	inRec   string // name of the recursive spec function whose body is being rendered
 }
 
 func (e *Enc) newSpecEnv(pkgPath string, heap, old *Heap) *SpecEnv {
@@ -672,7 +673,11 @@ func (e *Enc) evalCall(s *Spec, env *SpecEnv) SV {
 			as = append(as, a.T)
 		}
 		rs, rt, re, _ := e.parseType(sf.Ret, pkg)
-		return SV{T: fmt.Sprintf("(%s %s)", sf.Name, strings.Join(as, " ")), S: rs, GoT: rt, Elem: re}
+		fname := sf.Name
+		if env.inRec == sf.Name {
+			fname += "_L"
+		}
+		return SV{T: fmt.Sprintf("(%s %s)", fname, strings.Join(as, " ")), S: rs, GoT: rt, Elem: re}
 	}
 	ne := &SpecEnv{e: e, names: map[string]SV{}, heap: env.heap, old: env.old, pkg: pkg, pkgPath: sf.Pkg, noHeap: env.noHeap, depth: env.depth + 1}
 	for i, p := range sf.Params {
@@ -719,10 +724,18 @@ func (e *Enc) declareRec(sf *SpecFunc) {
 		env.names[p.Name] = SV{T: n, S: ps, GoT: pt, Elem: pe, KeyS: ks}
 	}
 	rs, _, _, _ := e.parseType(sf.Ret, pkg)
+	// Limited-function encoding: the unfolding axiom rewrites recursive calls to
+	// the twin symbol name_L, which triggers nothing; name_L(args) is equated to
+	// name(args) only where a name(args) term already exists.  One unfolding
+	// per existing term, no matching loop.
 	e.d.lines = append(e.d.lines, fmt.Sprintf("(declare-fun %s (%s) %s)", sf.Name, strings.Join(sorts, " "), rs))
+	e.d.lines = append(e.d.lines, fmt.Sprintf("(declare-fun %s_L (%s) %s)", sf.Name, strings.Join(sorts, " "), rs))
+	env.inRec = sf.Name
 	body := e.evalSpec(sf.Body, env)
 	app := fmt.Sprintf("(%s %s)", sf.Name, strings.Join(args, " "))
+	appL := fmt.Sprintf("(%s_L %s)", sf.Name, strings.Join(args, " "))
 	e.recAxioms = append(e.recAxioms, fmt.Sprintf("(assert (forall (%s) (! (= %s %s) :pattern (%s))))", strings.Join(binders, " "), app, body.T, app))
+	e.recAxioms = append(e.recAxioms, fmt.Sprintf("(assert (forall (%s) (! (= %s %s) :pattern (%s))))", strings.Join(binders, " "), appL, app, app))
 }
 
 // findIndexBase returns the base expression of the first a[v] in s where v is
